@@ -98,7 +98,7 @@ def gen_seqs(ck, tier):
     out, seen = [], set()
 
     def add(r):
-        for b in r.json_lines:
+        for b in sorted(r.json_lines, key=lambda x: json.dumps(x, sort_keys=True)):     # TLC's workers print in any order
             k = json.dumps(b, sort_keys=True)
             if k not in seen:
                 seen.add(k)
@@ -615,6 +615,12 @@ def run(tier):
                 race_stats["by_kind"][case_kind(d["case"])]["rejected"] += 1
                 if not d["case"].get("risky"):
                     race_stats["by_kind"][case_kind(d["case"])]["rejected_not_risky"] += 1
+                    if not race_stats.get("drift_reported"):
+                        race_stats["drift_reported"] = True
+                        ck.drift("a race case for which TenancyQuota (code variant) has no interleaving with a wrong counter was rejected "
+                                 "(the model has one canonical store; the engine writes the canonical record and the recent-write "
+                                 "mirror in two steps): %s; %s" % (json.dumps({k: d["case"][k] for k in ("live", "a", "b")})[:400],
+                                                                   "; ".join(reasons)))
             name = key or "unkeyed"
             race_stats["findings"][name] = race_stats["findings"].get(name, 0) + 1
             sig = (key, case_kind(d["case"]) if d["group"] else d["ops"][0]["t"], tuple(reasons))
@@ -647,6 +653,9 @@ def run(tier):
         "quiescent measurement, so a missed interleaving can only hide a defect, never fake one",
         "a bulk load is admitted or refused as a whole (one reservation per batch); when only the items the engine would reject "
         "make it exceed the limit either outcome is accepted",
+        "inside a concurrent group the ANSWERS are not judged, only the quiescent state: an item (or a whole bulk load) may be "
+        "refused while the other request's delete has removed a document but not yet given back its slot (transient count; "
+        "counted in coverage as groups_with_transient_answers)",
         "'failed write' = wrong dimension (or NaN inside a stream): accepted by request validation, refused by the engine after "
         "the reservation; 'rejected input' = NaN / empty embedding / id 0: refused by validation",
         "/usage vector_count is judged within one process lifetime and across SIGTERM restarts; after SIGKILL it is a stale "
